@@ -428,9 +428,66 @@ func (d *driver) shapeVsServer(name, shape string, hk hostKeyCase) (res shapeRes
 		res.problem = d.checkServerSide(name, hk, t, raw, m, sRes, sErr)
 		return
 	}
+	if info.method == "c25519" {
+		// the server's key pair is the first 32 octets of its random stream: learn its public value with one
+		// exchange, search the client's scalar offline, repeat the exchange with the same stream
+		seed := d.rng.Int63()
+		curve := ecdh.X25519()
+		mk := func(k *ecdh.PrivateKey) *clientSecret {
+			return &clientSecret{initField: encStr(k.PublicKey().Bytes()), secret: func(reply []byte, _ *big.Int) []byte {
+				pk, err := curve.NewPublicKey(reply)
+				if err != nil {
+					return nil
+				}
+				sec, err := k.ECDH(pk)
+				if err != nil {
+					return nil
+				}
+				return sec
+			}}
+		}
+		k0, _ := curve.GenerateKey(crand.Reader)
+		t1, _, _, _, _, prob := d.oneClientExchange(name, hk, seed, func(_, _ *big.Int) *clientSecret { return mk(k0) })
+		if prob != "" {
+			res.problem = prob
+			return
+		}
+		spub, err := curve.NewPublicKey(t1.qs)
+		if err != nil {
+			res.problem = "server public value does not parse"
+			return
+		}
+		var kk *ecdh.PrivateKey
+		for res.tries = 1; res.tries <= maxTries; res.tries++ {
+			k, _ := curve.GenerateKey(crand.Reader)
+			if sec, err := k.ECDH(spub); err == nil && shapeOf(sec) == shape {
+				kk = k
+				break
+			}
+		}
+		if kk == nil {
+			res.skipped = "shape not reached"
+			return
+		}
+		t, raw, m, sRes, sErr, prob := d.oneClientExchange(name, hk, seed, func(_, _ *big.Int) *clientSecret { return mk(kk) })
+		if prob != "" {
+			res.problem = prob
+			return
+		}
+		res.raw = raw
+		if raw == nil || shapeOf(raw) != shape {
+			res.skipped = "server value not reproducible from its random stream"
+		}
+		res.problem = d.checkServerSide(name, hk, t, raw, m, sRes, sErr)
+		return
+	}
 	// the other methods: whole exchanges with fresh client keys until the secret has the shape
 	// (every attempt is checked, whatever its shape)
-	for res.tries = 1; res.tries <= 20000; res.tries++ {
+	limit := 20000
+	if shape == "lz2" {
+		limit = maxTries
+	}
+	for res.tries = 1; res.tries <= limit; res.tries++ {
 		t, raw, m, sRes, sErr, prob := d.oneClientExchange(name, hk, d.rng.Int63(), func(_, _ *big.Int) *clientSecret {
 			if info.method == "mlkem" {
 				dk, _ := mlkem.GenerateKey768()
@@ -504,11 +561,21 @@ func (d *driver) forcedShapes(thorough bool) {
 				continue
 			}
 			for _, side := range []string{"client", "server"} {
-				var r shapeRes
-				if side == "client" {
-					r = d.shapeVsClient(name, shape, hk)
-				} else {
-					r = d.shapeVsServer(name, shape, hk)
+				run := func(sh string) shapeRes {
+					if side == "client" {
+						return d.shapeVsClient(name, sh, hk)
+					}
+					return d.shapeVsServer(name, sh, hk)
+				}
+				r := run(shape)
+				if r.problem != "" && r.raw != nil {
+					// an encoding defect is a function of the shape: it must show again on a second exchange with
+					// that shape before it counts (what does not repeat is recorded in the evidence, not judged)
+					if r2 := run(shapeOf(r.raw)); r2.problem == "" {
+						d.stat["kshape_unrepeatable_failures"]++
+						d.out.Extra["kshape_unrepeatable_failure_detail"] = fmt.Sprintf("%s %s %s: %s", name, shapeOf(r.raw), side, r.problem)
+						r = r2
+					}
 				}
 				if r.skipped != "" && r.problem == "" && (r.raw == nil || shapeOf(r.raw) != shape) {
 					d.stat["kshape_not_forced"]++
